@@ -84,6 +84,37 @@ theorem alloc_complete (inp : Input) (wf : WellFormed inp) (dom : InDomain inp)
   alloc_complete_window inp wf dom
     (fun p hp q hq e rd hrd => (feas p hp q hq e rd hrd).fits)
 
+/-- hypothesis of the completeness clause in the placers' own terms
+(`place/utils.py: resources_after_reservation` subtracts the *magnitude* of every
+reservation from the chip's resource): no alignment, every reservation inside the range
+and at one of its ends, and the demand is at most capacity minus the reserved magnitudes -/
+def PlacerFeasibleAt (inp : Input) (xy : Chip) (res : Res) : Prop :=
+  alignment inp.constraints res = 1 ∧
+  ∃ cap, capacity inp.machine xy res = some cap ∧
+    (∀ r ∈ reserved inp.constraints xy res, Inside cap r ∧ AtEnd cap r) ∧
+    demand inp xy res ≤ cap - reservedSize (reserved inp.constraints xy res)
+
+/-- **Completeness in the placers' terms.** A placement that is feasible by the
+placers' accounting is always allocated when there is no alignment constraint and the
+reservations sit at the ends of the ranges. -/
+theorem alloc_complete_placer_budget (inp : Input) (wf : WellFormed inp) (dom : InDomain inp)
+    (feas : ∀ p ∈ inp.placements, ∀ q ∈ inp.vr, q.1 = p.1 → ∀ rd ∈ q.2,
+      PlacerFeasibleAt inp p.2 rd.1) :
+    ∃ out, allocate inp = .ok out ∧ Valid inp (strip out) := by
+  apply alloc_complete_window inp wf dom
+  intro p hp q hq e rd hrd
+  obtain ⟨h1, cap, h2, h3, h4⟩ := feas p hp q hq e rd hrd
+  have := window_ge_budget' cap _ h3
+  exact ⟨h1, cap, h2, by omega⟩
+
+/-- **One range each.** In a returned allocation no (vertex, resource) pair has two ranges
+(so `Served` gives *the* range of every request). -/
+theorem alloc_unique (inp : Input) (out : List (Vertex × List Entry)) (wf : WellFormed inp)
+    (h : allocate inp = .ok out) : ((flat (strip out)).map fun t => (t.1, t.2.1)).Nodup :=
+  unique_of_chipsOk wf
+    (allocChips_ok (alignment_pos wf.alignPos) wf.demandNonneg _ _ (nodup_dedup _) h)
+    (allocChips_keys (alignment_pos wf.alignPos) wf.demandNonneg _ _ h)
+
 /-! ### non-vacuity: the hypotheses hold for non-trivial instances -/
 
 /-- 2x1 machine, chip (1,0) has fewer cores; resource 0 reserved at both ends globally,
@@ -97,6 +128,14 @@ def exEnds : Input :=
     placements := [(0, (0, 0)), (3, (1, 0)), (2, (0, 0)), (1, (0, 0))] }
 
 example : WellFormed exEnds ∧ InDomain exEnds ∧ Feasible exEnds := by decide
+
+/-- the placers' accounting holds for `exEnds` without the overlapping local reservation -/
+def exPlacer : Input :=
+  { exEnds with constraints := [.reserve 0 ⟨0, 1⟩ none, .other, .reserve 0 ⟨7, 10⟩ (some (0, 0)),
+                                .reserve 0 ⟨8, 8⟩ none] }
+
+example : PlacerFeasibleAt exPlacer (0, 0) 0 :=
+  ⟨by decide, 10, by decide, by decide, by decide⟩
 
 example : (allocate exEnds).map strip = .ok
     [(0, [(0, ⟨2, 5⟩), (1, ⟨0, 10⟩)]), (2, [(0, ⟨5, 7⟩)]), (1, [(0, ⟨7, 7⟩)]), (3, [(0, ⟨1, 5⟩)])] := by
